@@ -447,19 +447,19 @@ fn record_laws(ctx: &Ctx, sink: &mut Sink, i: u64) {
 }
 
 pub fn run(ctx: &Ctx, sink: &mut Sink) {
-    let nl = ctx.budget(24_000, 400_000);
+    let nl = ctx.budget(24_000, 3_000_000);
     for i in 0..nl {
         if ctx.mine(i) {
             list_laws(ctx, sink, i);
         }
     }
-    let ns = ctx.budget(24_000, 400_000);
+    let ns = ctx.budget(24_000, 3_000_000);
     for i in 0..ns {
         if ctx.mine(i) {
             string_laws(ctx, sink, i);
         }
     }
-    let nr = ctx.budget(12_000, 200_000);
+    let nr = ctx.budget(12_000, 1_500_000);
     for i in 0..nr {
         if ctx.mine(i) {
             record_laws(ctx, sink, i);
